@@ -220,6 +220,13 @@ func (r *report) finish() int {
 				}
 				continue
 			}
+			// a script every solver rejects is a defect of the generator, not a verdict on the code
+			if o.Res.Status == "error" {
+				fmt.Printf("ENGINE-ERROR: every solver rejected the script of %s: %s\n", o.Name, firstLines(o.Res.Output, 2))
+				engineErr = true
+				nClaimed--
+				continue
+			}
 			// failing claimed obligation
 			if fd := matchFinding(findings, p, o.Name); fd != nil {
 				known = append(known, fmt.Sprintf("KNOWN-FINDING: property=%s obligation=%s %s", p, o.Name, fd.text))
